@@ -153,7 +153,7 @@ def run_cold(check, segment, timeout=600, repo=None):
             stderr=subprocess.DEVNULL,
             env=env,
             text=True,
-            timeout=timeout,
+            timeout=3 * timeout,  # wall clock; generous, the machine may be busy
         )
     except subprocess.TimeoutExpired:
         raise HarnessError("timeout", f"cold segment exceeded {timeout}s")
